@@ -243,6 +243,7 @@ def run(tier, seed):
         chk.machine_family("F1-heads", f1_scenarios(rnd, (0, 1), 1.0) + f1_scenarios(rnd, (2,), 0.6), features=features)
         n = 6000
     chk.machine_family("repository-prolog-files", repo_file_scenarios(), features=features, opts_list=DEC)
+    chk.machine_family("scale", gen.scale_scenarios(), features=features, max_steps=6000)
     chk.machine_family("F5-multiclause-heads", f5_multiclause(rnd, 400 if tier == "quick" else 6000), features=features)
     frag = {"ops", "rich"}
     scns = [gen.random_scenario(rnd, frag, nclauses=3, depth=rnd.choice([1, 2, 3])) for _ in range(n)]
